@@ -4,6 +4,7 @@ from gen import SeqGen, NAME_POOL
 from props.c20 import seg_table, _same_arrays
 
 ID = "C19"
+HEAP_SUMMARY = True      # end every program with the reference-level observation (BB.Model.Heap vs id() walk)
 LEAN_MODULE = "BB.Properties.C19"
 QUICK_N = 200
 THOROUGH_N = 4000
